@@ -131,6 +131,14 @@ var templates = []func(u string) string{
 		return "rec(keys({\"a\": base}))\nrec(range(3))\nrec(range(1, 7, 2))\nrec(typeOf(base))\nrec(kindOf(\"s\"))\nrec(toString(base))\nrec(toInt(\"4\") + base)\nrec(toFloat(\"1.5\"))\nrec(toBool(\"true\"))\nrec(defined(\"base\"))\nrec(defined(\"nope" + u + "\"))\nzz" + u + " = 1\nrec(defined(\"zz" + u + "\"))\nrec(toIntSlice([1, base]))\nrec(toStringSlice([\"a\"]))"
 	},
 	func(u string) string {
+		// a long string literal bound to a variable and written through; a raw string and a block comment
+		return "s" + u + " = \"0123456789-0123456789-0123456789-0123456789\"\np" + u + " = &s" + u + "\n*p" + u + " = \"changed\" + base\nrec(\"0123456789-0123456789-0123456789-0123456789\")\nt" + u + " = \"abcdefghij-abcdefghij-abcdefghij-abcdefghij\"\nt" + u + " += base\nrec(t" + u + ")\nmust(\"abcdefghij-abcdefghij-abcdefghij-abcdefghij\" == \"abcdefghij-\" + \"abcdefghij-abcdefghij-abcdefghij\")\n/* block comment " + u + " */\nrec(`raw " + u + " string`)"
+	},
+	func(u string) string {
+		// a compiled regexp is a mutable Go object: Longest() in one environment must not reach another
+		return "re" + u + " = import(\"regexp\").MustCompile(\"a+|a+b\")\nif ow {\nre" + u + ".Longest()\nmust(re" + u + ".FindString(\"xaab\") == \"aab\")\n} else {\nmust(re" + u + ".FindString(\"xaab\") == \"aa\")\n}\nrec(import(\"regexp\").MustCompile(\"b+\").FindString(\"abbc\"))"
+	},
+	func(u string) string {
 		// a nil-valued variable and a "no result" value, written through a pointer
 		return "a" + u + " = nil\nb" + u + " = &a" + u + "\n*b" + u + " = base\nrec(nil)\nfunc f" + u + "() { }\ny" + u + " = f" + u + "()\np" + u + " = &y" + u + "\n*p" + u + " = base\nrec(f" + u + "())\nrec(nil == nil)\nif false { }\nrec([nil, f" + u + "()])"
 	},
@@ -631,6 +639,14 @@ func (Prop) Run(t *testing.T, c *harness.Case, verbose bool) *harness.Result {
 			return fail("tree-changed", "parsing another source changed the shared tree: "+firstDiff(dump0, d))
 		}
 	}
+	if _, e1 := parser.ParseSrc("a = 1\nb = 1..5\n"); e1 != nil {
+		before := fmt.Sprintf("%v|%#v", e1, e1)
+		parser.ParseSrc("x = 1\ny = 2\nfunc (")
+		parser.ParseSrc(src)
+		if after := fmt.Sprintf("%v|%#v", e1, e1); after != before {
+			return fail("parse-not-repeatable", "an error returned by an earlier rejected parse changed when other sources were parsed later: "+before+" -> "+after)
+		}
+	}
 	if again, perr := parser.ParseSrc(src); perr != nil || dumpTree(again) != dump0 {
 		return fail("parse-not-repeatable", "parsing the same source again gives a different tree (positions included): the parser keeps state between calls")
 	}
@@ -682,9 +698,17 @@ func RunReal(c *harness.Case) string {
 	}
 	// sequential reference runs first (separately parsed tree), then the concurrent ones must equal them
 	solo := make([]*runOut, w.Envs)
+	vsolo := make([]*runOut, w.Envs)
+	variant := func(i int) string {
+		tag := strings.Repeat(fmt.Sprintf("v%d-", i), 6)
+		return fmt.Sprintf("/* variant %s */\nrawv = `%s`\nrec(rawv)\n/* %s */\n", tag, tag, tag) + src
+	}
 	for i := range solo {
 		st, _ := parser.ParseSrc(src)
 		solo[i] = execute(st, i, context.Background(), 0)
+		if vt, perr := parser.ParseSrc(variant(i)); perr == nil {
+			vsolo[i] = execute(vt, i, context.Background(), 0)
+		}
 	}
 	var wg sync.WaitGroup
 	start := make(chan struct{})
@@ -699,12 +723,15 @@ func RunReal(c *harness.Case) string {
 				mode = 2 // on real goroutines always share: that is where a per-Options scratch area would race
 			}
 			for rep := 0; rep < 3; rep++ {
-				tree := shared
-				if rep == 1 {
-					// concurrent parses: the parser must not keep state between calls
-					if own, perr := parser.ParseSrc(src); perr == nil {
-						tree = own
+				tree, ref := shared, solo[i]
+				if rep == 1 && vsolo[i] != nil {
+					// concurrent parses of DIFFERENT sources: the parser must not keep state between calls
+					own, perr := parser.ParseSrc(variant(i))
+					if perr != nil {
+						msgs[i] = "a source that parses alone was rejected while other goroutines were parsing: " + perr.Error()
+						continue
 					}
+					tree, ref = own, vsolo[i]
 				}
 				o := execute(tree, i, context.Background(), mode)
 				if o.paniced != "" {
@@ -713,7 +740,7 @@ func RunReal(c *harness.Case) string {
 				if o.cross != "" {
 					msgs[i] = o.cross
 				}
-				if d := o.diff(solo[i]); d != "" && solo[i].paniced == "" {
+				if d := o.diff(ref); d != "" && ref.paniced == "" {
 					msgs[i] = fmt.Sprintf("concurrent execution %d on real goroutines differs from its sequential run: %s", i, d)
 				}
 			}
